@@ -171,8 +171,7 @@ Proof.
     intros H; inversion H; subst. eapply keeps_trans; [eapply NS; reflexivity|eapply keeps_deliver_user; exact E].
   - destruct (next_serial s) as [s1 k] eqn:En. destruct (deliver_user s1 t0 (a_tok a) (UProbe n k)) as [s2 o2] eqn:E.
     intros H; inversion H; subst. eapply keeps_trans; [eapply NS; reflexivity|eapply keeps_deliver_user; exact E].
-  - destruct (snd =? rNone); [intros H; inversion H; subst; apply keeps_refl|].
-    destruct (next_serial s) as [s1 k] eqn:En. destruct (deliver_user s1 snd (a_tok a) (UProbe n k)) as [s2 o2] eqn:E.
+  - destruct (next_serial s) as [s1 k] eqn:En. destruct (deliver_user s1 snd (a_tok a) (UProbe n k)) as [s2 o2] eqn:E.
     intros H; inversion H; subst. eapply keeps_trans; [eapply NS; reflexivity|eapply keeps_deliver_user; exact E].
   - destruct (next_serial s) as [s1 k] eqn:En. destruct (send_each s1 (a_tok a) (a_children a) n k) as [s2 o2] eqn:E.
     intros H; inversion H; subst. eapply keeps_trans; [eapply NS; reflexivity|eapply keeps_send_each; exact E].
